@@ -473,6 +473,11 @@ func (p *c21Prop) genCase(seed uint64, tier string) *c21Case {
 				ops := append([]Op{}, c.Tasks[i][:at]...)
 				ops = append(ops, Op{K: "setreq", A: map[string]string{"i": "0"}})
 				c.Tasks[i] = append(ops, c.Tasks[i][at:]...)
+				// ... and unmarshals the same decoded document (the one with module-qualified names)
+				at = r.Intn(len(c.Tasks[i]) + 1)
+				ops = append([]Op{}, c.Tasks[i][:at]...)
+				ops = append(ops, Op{K: "unmarshal-tree", A: map[string]string{"i": "1"}})
+				c.Tasks[i] = append(ops, c.Tasks[i][at:]...)
 			}
 		}
 	}
